@@ -199,3 +199,57 @@ Proof.
   rewrite <- (Hview p i Hp). unfold Fof. symmetry.
   apply (c08_serial_isolation_proof first kept _ _ _ p q Hpq). symmetry. apply xerase_idem.
 Qed.
+
+Theorem c08_sched_hub_unaffected_proof : C08_sched_hub_unaffected.
+Proof.
+  intros first kept h0 script reqs sched st ops. subst ops.
+  destruct (full_reachable first kept h0 script reqs sched) as [[L [R S]] P]. fold st in L, R, S, P.
+  destruct (F_facts first kept h0 script st R S) as [Hv [Hh [Hp _]]].
+  destruct (c08_serial_hub_proof first kept (mkSH h0 []) _ Hv) as [Hh' Hf']. cbn [sh_hub] in Hh', Hf'.
+  unfold Fof in Hh, Hp. rewrite Hh in Hh'. rewrite Hp in Hf'.
+  split; [|split; [exact Hh' | exact Hf']].
+  exists (unprocessed st). rewrite (si_script _ _ _ _ _ S) at 1. f_equal.
+  rewrite serial_ops, blocks_app. pose proof (tail_recvs first kept h0 script st S) as Hro.
+  destruct (inflight st) as [[e todo]|]; [|rewrite app_nil_r; reflexivity].
+  change (XFan e :: map snd (g_tail st)) with ([XFan e] ++ map snd (g_tail st)). rewrite blocks_app.
+  destruct (recvs_only_run first kept _ (xstart (mkSH h0 [])) Hro) as [_ [_ [_ [_ [Hb' _]]]]]. rewrite Hb'.
+  rewrite app_nil_r. reflexivity.
+Qed.
+
+Theorem c08_sched_complete_delivery_proof : C08_sched_complete_delivery.
+Proof.
+  intros first kept h0 script reqs sched p i st Hfin Hp.
+  destruct (c08_sched_exactly_once_proof first kept h0 script reqs sched p i Hp)
+    as [c [pre' [post' [burst' [Hc [Hser' [Hb' Hrest]]]]]]].
+  fold st in Hc, Hser', Hrest.
+  destruct (full_reachable first kept h0 script reqs sched) as [[L [R S]] P]. fold st in L, R, S, P.
+  destruct Hfin as [Hpc [Hscript Hall]]. destruct (Hall i c Hc) as [Hdone Hq].
+  assert (Hinf : inflight st = None) by (unfold inflight; rewrite Hpc; reflexivity).
+  assert (Hpend : pend_of st = []) by (unfold pend_of; rewrite Hpc; reflexivity).
+  assert (Hs : exists s, r_sub c = Some s).
+  { assert (Hin : In i (g_order st)) by (apply (nth_error_In _ _ Hp)).
+    apply (ri_order _ R) in Hin. destruct Hin as [c0 [Hc0 Hreg]]. rewrite Hc in Hc0. inversion Hc0; subst c0.
+    unfold registered in Hreg. apply andb_true_iff in Hreg. destruct Hreg as [_ Hsome].
+    destruct (r_sub c) as [s|]; [exists s; reflexivity | discriminate]. }
+  destruct Hs as [s Hs]. specialize (Hq s Hs).
+  assert (Hsd : sub_done st i = s) by (unfold sub_done; rewrite Hinf; unfold sub_at; rewrite Hc, Hs; reflexivity).
+  (* the events fanned out after the registration are the hub's events for the rest of the script *)
+  destruct (F_facts first kept h0 script st R S) as [Hv [_ [Hp' _]]].
+  unfold Fof in Hp'. rewrite Hser' in Hv, Hp'. apply xvalid_app in Hv. destruct Hv as [Hv1 Hv2].
+  destruct (c08_serial_hub_proof first kept (mkSH h0 []) pre' Hv1) as [Hh1 _]. cbn [sh_hub] in Hh1.
+  pose proof Hv2 as Hv2'. cbn [xvalid xok] in Hv2'. destruct Hv2' as [Hp0 _].
+  destruct (xrun_hub_gen first kept _ _ Hv2) as [_ Hf]. rewrite <- xrun_app, Hp', Hp0, Hh1, Hpend, app_nil_r in Hf.
+  cbn [fans blocks flat_map app] in Hf. fold (fans post') in Hf. fold (blocks post') in Hf.
+  assert (Hsplit : script = blocks pre' ++ blocks post').
+  { rewrite (si_script _ _ _ _ _ S). unfold unprocessed. rewrite Hpc, Hscript, app_nil_r.
+    assert (E : map snd (g_log st) = map snd (serial st)) by (rewrite serial_ops, Hinf, app_nil_r; reflexivity).
+    rewrite E, Hser', blocks_app. cbn [blocks flat_map app]. reflexivity. }
+  cbv zeta in Hrest. rewrite Hsd in Hrest. destruct Hrest as [Hcap [Hlive Hdrop]].
+  exists c, s, (blocks pre'), (blocks post'), burst'.
+  split; [exact Hc|]. split; [exact Hs|]. split; [exact Hsplit|]. cbv zeta.
+  split; [exact Hb'|]. rewrite Hq, app_nil_r in Hlive, Hdrop. split.
+  - intros Hd. rewrite (Hlive Hd), Hf. reflexivity.
+  - intros Hd. destruct (Hdrop Hd) as [post1 [e [post2 [s1 [got1 [H1 [_ [_ [_ H5]]]]]]]]].
+    exists (fans post1), e, (fans post2). split; [|exact H5].
+    rewrite <- Hf, H1, fans_app. reflexivity.
+Qed.
